@@ -42,7 +42,7 @@ NONVACUITY = ["fonts_judged", "pairs_with_candidates", "pairs_without_candidates
               "mkmk_pairs", "abvm_blwm_fonts", "fractional_anchor_fonts", "quantized_fonts",
               "grouped_fonts", "category_fonts"]
 
-CLASSES = ["top", "bottom", "top.alt", "ogonek", "nukta", "candra"]
+CLASSES = ["top", "bottom", "top.alt", "ogonek", "nukta", "candra", "top2", "m12"]
 
 
 def n_cases(tier):
